@@ -10,6 +10,7 @@ import (
 	"errors"
 	"io"
 
+	"mellium.im/xmlstream"
 	"mellium.im/xmpp/stream"
 )
 
@@ -59,7 +60,17 @@ func (r *reader) Token() (xml.Token, error) {
 		switch t.Name.Local {
 		case "error":
 			e := stream.Error{}
-			err = xml.NewTokenDecoder(r.r).DecodeElement(&e, &t)
+			d, ok := r.r.(*xml.Decoder)
+			if !ok {
+				// A decoder created from a plain token reader has not seen the start
+				// element, and decoding a type with a custom UnmarshalXML would
+				// dereference its empty element stack: replay the start token first.
+				d = xml.NewTokenDecoder(xmlstream.MultiReader(xmlstream.Token(t), r.r))
+				if _, err = d.Token(); err != nil {
+					return nil, err
+				}
+			}
+			err = d.DecodeElement(&e, &t)
 			if err != nil {
 				return nil, err
 			}
